@@ -432,7 +432,9 @@ pub fn scenarios(ctx: &Ctx) -> Vec<Scenario> {
     v.push(scenario("F/shake", |c| fixed_decoders::<Shake>(c, 101)));
     v.push(scenario("B/sha", |c| serde_inputs::<Sha>(c, 200)));
     v.push(scenario("B/shake", |c| serde_inputs::<Shake>(c, 201)));
-    for (k, (l, m)) in [(0usize, 0usize), (1, 0), (3, 2), (2, 5)].into_iter().enumerate() {
+    // (170, 2) / (1400, 2): more hidden values than any internal buffer, batch or one-call expansion limit holds
+    let big: &[(usize, usize)] = ctx.t(&[(170, 2)][..], &[(170, 2), (2, 170), (1400, 2)][..]);
+    for (k, (l, m)) in [(0usize, 0usize), (1, 0), (3, 2), (2, 5)].into_iter().chain(big.iter().copied()).enumerate() {
         let i = 300 + k as u64;
         v.push(scenario(format!("C/sha/L{l}M{m}"), move |c| entry_points::<Sha>(c, i, l, m)));
         v.push(scenario(format!("C/shake/L{l}M{m}"), move |c| entry_points::<Shake>(c, i, l, m)));
